@@ -4,7 +4,6 @@ import re
 from common import cn, cbool, copt, clist, cstr, run_harness, coq_eval_bad
 
 REQ = ['RasnV.Corr.C02']
-KNOWN_COMPONENTS_OF = 'C02-components-of-extension-index'
 
 PLAIN = [
     ('BOOLEAN', 'bool', 'TRUE'), ('NULL', '()', None), ('INTEGER', 'Integer', '5'), ('INTEGER (0..255)', 'u8', '7'), ('INTEGER (-5..5)', 'i8', '-1'),
@@ -287,7 +286,7 @@ def run(ck):
                            'function, extension annotation) compared with the model inside Coq for the type and every in-place type below it; '
                            'SET markers, default functions and in-place ENUMERATEDs checked on the projection')
     ck.assumptions += ['the Rust type token of constrained INTEGER components is taken from a fixed table (decided by C06)',
-                       'COMPONENTS OF is C09\'s subject; its effect on the extension index is a known finding here']
+                       'COMPONENTS OF is C09\'s subject; here: the root / addition status of the own and the copied components next to a marker (proved over the linker model, C02_copied_components_join_root, and compared end to end); that the copied components stand behind the own root components is a known finding']
     ck.prove('Props/C02.v', ['RasnV.Props.C02'], extra=['Corr/C02.vo'])
     n = 200 if ck.tier == 'quick' else 6000
     cases = []
@@ -354,22 +353,77 @@ def run(ck):
                      why='the fields / variants of %s are not: one per component, in source order, with the component\'s name, written type, '
                          'Option / default / extension marking' % parent)
     ck.coverage['traces_validated_against_impl'] = len(terms)
-    # known finding: COMPONENTS OF in the root shifts the extension index
-    probe = 'Mk DEFINITIONS AUTOMATIC TAGS ::= BEGIN\nXx ::= SEQUENCE { x1 BOOLEAN }\nAa ::= SEQUENCE { COMPONENTS OF Xx, a NULL, ..., b NULL }\nEND\n'
-    r = run_harness([{'op': 'compile', 'sources': [probe]}])[0]
-    ck.note_case(probe)
-    ok = False
-    if r.get('ok') and 'items' in r:
+    components_of_with_marker(ck)
+
+
+KNOWN_COPIED_ORDER = 'C02-copied-components-behind-root'
+
+
+def components_of_with_marker(ck):
+    """COMPONENTS OF next to an extension marker: the fields of the including type and their extension_addition flags against
+    the linker model (Expansion.link_marked, inside Coq) and against the meaning: the copied root components and the own root
+    components are no additions, the own additions -- all of them, nothing else -- are; order = the notation replaced in place"""
+    rng = ck.rng
+    n = 40 if ck.tier == 'quick' else 600
+    cases, meta = [], []
+    for k in range(n):
+        nx = rng.randint(1, 3)
+        xroot = ['x%d' % i for i in range(nx)]
+        xadds = ['xa%d' % i for i in range(rng.choice([0, 0, 1, 2]))]
+        xmark = bool(xadds) or rng.random() < 0.3
+        own_root = ['r%d' % i for i in range(rng.randint(0, 3))]
+        own_adds = ['a%d' % i for i in range(rng.randint(0, 3))]
+        marker = bool(own_adds) or rng.random() < 0.5
+        pos = rng.randint(0, len(own_root))
+        kind = rng.choice(['SEQUENCE', 'SEQUENCE', 'SET'])
+        ty = lambda nm: '%s %s' % (nm, rng.choice(['BOOLEAN', 'NULL', 'INTEGER', 'IA5String']))
+        xx = ', '.join([ty(m) for m in xroot] + (['...'] if xmark else []) + [ty(m) for m in xadds])
+        root_txt = [ty(m) for m in own_root]
+        root_txt.insert(pos, 'COMPONENTS OF Xx')
+        aa = ', '.join(root_txt + (['...'] if marker else []) + [ty(m) for m in own_adds])
+        # names chosen so that the including type is processed after (Aa) or before (Zz) the included one in the pass
+        incl = rng.choice(['Aa', 'Zz'])
+        src = 'Mk%d DEFINITIONS AUTOMATIC TAGS ::= BEGIN\nXx ::= %s { %s }\n%s ::= %s { %s }\nEND\n' % (k, kind, xx, incl, kind, aa)
+        cases.append({'op': 'compile', 'sources': [src]})
+        meta.append((src, incl, own_root, own_adds, xroot, marker, pos))
+    res = run_harness(cases)
+    terms, idx = [], []
+    for (src, incl, own_root, own_adds, xroot, marker, pos), r in zip(meta, res):
+        ck.note_case(src)
+        ck.count('components-of-with-marker')
+        if 'panic' in r or 'crash' in r:
+            ck.count('panic-or-crash')
+            continue
+        if not r.get('ok') or 'items' not in r or r.get('warnings'):
+            ck.violation('impl-violation', src, why='a module using COMPONENTS OF next to an extension marker is rejected or warned about',
+                         impl={x: y for x, y in r.items() if x not in ('generated', 'items')})
+            continue
         mod = [m for m in r['items'] if m.get('kind') == 'mod'][0]
-        aa = [it for it in mod['items'] if it.get('name') == 'Aa']
-        if aa:
-            f = {x['name']: ' '.join(x['attrs']) for x in aa[0]['fields']}
-            ok = 'extension_addition' in f.get('b', '') and [x['name'] for x in aa[0]['fields']] == ['x1', 'a', 'b']
-    if not ok:
-        if ck.is_known(KNOWN_COMPONENTS_OF):
-            ck.known_hit(KNOWN_COMPONENTS_OF, {'asn1': probe})
-        else:
-            ck.violation('impl-violation', probe, why='known-class probe fails but the class is not listed')
+        it = [x for x in mod['items'] if x.get('name') == incl and x.get('kind') == 'struct']
+        if not it:
+            ck.violation('impl-violation', src, why='no struct for %s' % incl)
+            continue
+        obs = [(f['name'], any('extension_addition' in a for a in f['attrs'])) for f in it[0]['fields']]
+        terms.append('(%s, %s, %s, %s, %s)' % (clist(own_root, cstr), clist(own_adds, cstr), clist(xroot, cstr), cbool(marker),
+                                              clist(obs, lambda p: '(%s, %s)' % (cstr(p[0]), cbool(p[1])))))
+        idx.append(src)
+        # the meaning of the notation
+        want_flags = dict([(m, False) for m in own_root + xroot] + [(m, True) for m in own_adds])
+        want_order = own_root[:pos] + xroot + own_root[pos:] + own_adds
+        if dict(obs) != want_flags or len(obs) != len(want_flags):
+            ck.violation('impl-violation', src, fields=obs, expected=want_flags,
+                         why='the fields of %s or their extension_addition marking are not those of its components: own and copied root '
+                             'components are no additions, the components after the marker are' % incl)
+        elif [x for x, _ in obs] != want_order:
+            if ck.is_known(KNOWN_COPIED_ORDER):
+                ck.known_hit(KNOWN_COPIED_ORDER, {'asn1': src, 'fields': [x for x, _ in obs], 'expansion': want_order})
+            else:
+                ck.violation('impl-violation', src, fields=[x for x, _ in obs], expansion=want_order,
+                             why='the fields of %s are not in the order of its expansion' % incl)
+    for j in coq_eval_bad('C02', REQ, 'list str * list str * list str * bool * list (str * bool)', 'corr_link', terms, label='link'):
+        ck.broken.append({'kind': 'correspondence', 'item': 'COMPONENTS OF next to an extension marker (Expansion.link_marked)',
+                          'detail': 'model and implementation disagree on %s (%s)' % (idx[j], terms[j][-300:])})
+    ck.coverage['traces_validated_against_impl'] = ck.coverage.get('traces_validated_against_impl', 0) + len(terms)
 
 
 def replay(ck, data):
